@@ -82,7 +82,13 @@ def gen_aged(rng, idx):
     lines.append('deliver 0 %d' % a)                 # source 0 hears from origin 1 after the jump
     lines.append('repair 0 1 %d' % rng.below(2))     # source 1 too (fetches id 8)
     lines += ['read 0', 'localstate 0', 'fetchstate 1 0', 'fetchstate 2 0']
-    if rng.chance(2, 3):
+    if rng.chance(1, 3):
+        # a purge the storage performs only PARTLY (and reports as failed), between two fetches with no write in between: what
+        # the peer receives afterwards is the state after that purge - some tombstones gone, the others back in the set
+        lines += ['partialnext 0 %s' % (','.join(str(j) for j in range(len(dels)) if rng.chance(1, 2)) or '0'), 'purge 0', 'read 0', 'localstate 0', 'fetchstate 2 0', 'fetchstate 1 0']
+        if rng.chance(1, 2):
+            lines += ['purge 0', 'localstate 0', 'fetchstate 1 0']
+    elif rng.chance(2, 3):
         lines += ['purge 0', 'read 0', 'localstate 0', 'fetchstate 2 0', 'fetchstate 1 0']
         if rng.chance(1, 2):
             lines += ['put 0 9 01', 'localstate 0', 'fetchstate 1 0']
